@@ -16,3 +16,5 @@ import SJ.Props.C19Nested
 #print axioms SJ.Props.C19.c19_nested_grammar
 #print axioms SJ.Props.C19.c19_nested_complete
 #print axioms SJ.Props.C19.c19_nested_canon
+#print axioms SJ.Props.C19.c19_nested_capture_map
+#print axioms SJ.Props.C19.c19_nested_grammar_map
